@@ -111,3 +111,24 @@ Definition sels_select (sels : list pkt) (c : core) : bool :=
 
 (* the packets sent so far, oldest first *)
 Definition sent (w : world) : list pkt := rev (map fst (w_log w)).
+
+(* ---------------------------------------------------------------- the packets of a whole flood fill *)
+Definition is_ffcs_b (q : pkt) : bool := (q_cmd q =? CMD_NNP) && (field (q_a1 q) 24 8 =? NN_FFCS).
+(* the core select packets among the packets of a fill *)
+Definition ffcs_of (ps : list pkt) : list pkt := filter is_ffcs_b ps.
+
+(* flood-filling a map sends, for each entry in map order, one well formed fill of the entry's binary whose
+   core select packets select exactly the cores of the entry (the sver query, which asks for the buffer
+   size, may stand before a fill: it is sent once, by a controller that has not asked yet) *)
+Fixpoint fills_ok (buffer base : Z) (bins : list (list Z)) (am : appmap) (ps : list pkt) : Prop :=
+  match am with
+  | [] => ps = []
+  | (b, ts) :: r =>
+      exists data pre one rest,
+        nth_error bins (Z.to_nat b) = Some data
+        /\ (pre = [] \/ exists q, pre = [q] /\ q_cmd q = CMD_VER)
+        /\ ps = pre ++ one ++ rest
+        /\ ff_wellformed buffer base data one
+        /\ (forall x y p, sels_select (ffcs_of one) (x, y, p) = requested (cores_of_targets ts) x y p)
+        /\ fills_ok buffer base bins r rest
+  end.
